@@ -249,7 +249,11 @@ func (p *Pat) Match(t *Term, b Binds) bool {
 		return true
 	case "var":
 		if prev, ok := b[p.Name]; ok {
-			return convStrip(prev).s == t.s
+			pv := convStrip(prev)
+			for pv.K == TUn && pv.Name == "&" {
+				pv = convStrip(pv.Sub[0])
+			}
+			return pv.s == t.s
 		}
 		b[p.Name] = t
 		return true
